@@ -220,9 +220,46 @@ def check_cone_factory():
     return None
 
 
+def check_slicing(cname):
+    odl, np = _odl()
+    T = odl.tomo
+    apart = odl.uniform_partition(0, np.pi, 6)
+    d1 = odl.uniform_partition(-1, 1, 4)
+    d2 = odl.uniform_partition([-1, -1], [1, 1], (4, 4))
+    geoms = {'Parallel2dGeometry': [T.Parallel2dGeometry(apart, d1, translation=(1.0, 2.0)), T.Parallel2dGeometry(apart, d1, det_pos_init=(0.5, 1.5), translation=(1.0, 2.0))],
+             'Parallel3dAxisGeometry': [T.Parallel3dAxisGeometry(apart, d2, axis=(1, 1, 0), det_pos_init=(0.5, -0.5, 0.2), translation=(1.0, 2.0, 0.5))],
+             'FanBeamGeometry': [T.FanBeamGeometry(apart, d1, 2.0, 3.0, src_to_det_init=(1, 1), translation=(1.0, 2.0)),
+                                 T.FanBeamGeometry(apart, odl.uniform_partition(-0.5, 0.5, 4), 2.0, 3.0, det_curvature_radius=4.0, translation=(1.0, 2.0))],
+             'ConeBeamGeometry': [T.ConeBeamGeometry(apart, d2, 2.0, 3.0, axis=(0, 1, 1), translation=(1.0, 2.0, 0.5), pitch=1.0, offset_along_axis=0.3)]}
+    for g in geoms.get(cname, []):
+        a = g.angles[2]
+        u = tuple(x[1] for x in g.det_grid.coord_vectors)
+        u = u[0] if len(u) == 1 else u
+        before = {nm: np.array(getattr(g, nm)(a)) for nm in ('det_refpoint', 'rotation_matrix')}
+        before['pos'] = np.array(g.det_point_position(a, u))
+        before['d2s'] = np.array(g.det_to_src(a, u))
+        s = g[1:4]
+        for nm in ('det_refpoint', 'rotation_matrix'):
+            if not np.allclose(getattr(s, nm)(a), before[nm]):
+                return '%r[1:4].%s(%r) = %r, parent %r' % (g, nm, a, getattr(s, nm)(a), before[nm])
+            if not np.allclose(getattr(g, nm)(a), before[nm]):
+                return 'slicing %r changed the PARENT: %s(%r) was %r, now %r' % (g, nm, a, before[nm], getattr(g, nm)(a))
+        if not np.allclose(s.det_point_position(a, u), before['pos']) or not np.allclose(s.det_to_src(a, u), before['d2s']):
+            return '%r[1:4]: det_point_position / det_to_src differ from the parent at angle %r' % (g, a)
+    return None
+
+
 def replay(ob):
     parts = ob['unit'].split('/')
+    if parts[0] == 'slicing':
+        try:
+            bad = check_slicing(parts[1])
+        except Exception as e:
+            return {'reproduced': False, 'detail': 'native evaluation raised %s: %s' % (type(e).__name__, e)}
+        return {'reproduced': bool(bad), 'detail': bad or 'slices agree with their parent natively'}
     if parts[0] == 'factory' and 'cone_beam_geometry' in ob['unit']:
+        if 'full horizontal coverage' not in str(ob.get('name', '')):
+            return {'reproduced': False, 'detail': 'no native concretisation for this obligation kind'}
         try:
             bad = check_cone_factory()
         except Exception as e:
